@@ -12,6 +12,7 @@ Inductive pred :=
 | POr (p q : pred)
 | PInList (col : nat) (vs : list Z)
 | PConst (b : bool)
+| PBoolCol (col : nat)        (* a bare boolean column as predicate; booleans are 0 / 1 *)
 | POther (e : expr).          (* any other predicate: NOT, <>, functions ...: no narrowing *)
 
 Definition cmp_eval (c : cmp) (x y : Z) : bool :=
@@ -27,6 +28,7 @@ Fixpoint peval (env : list Z) (p : pred) : bool :=
   | POr p q => peval env p || peval env q
   | PInList col vs => match nth_error env col with Some x => existsb (Z.eqb x) vs | None => false end
   | PConst b => b
+  | PBoolCol col => match nth_error env col with Some x => x =? 1 | None => false end
   | POther e => match eval env e with Some x => negb (x =? 0) | None => false end
   end.
 
@@ -111,6 +113,12 @@ Fixpoint narrow (t : tenv) (p : pred) : tenv :=
       end
   | PConst false => map (fun _ => []) t       (* try_empty *)
   | PConst true => t
+  (* filter_by_column: only a column whose type is the single value false empties the type *)
+  | PBoolCol col =>
+      match nth_error t col with
+      | Some [(0, 0)] => map (fun _ => []) t
+      | _ => t
+      end
   | POther _ => t
   end.
 End F.
